@@ -38,6 +38,8 @@ struct Parts {
     /// the owner has a join in flight (polled once, pending) from before the failure and asks
     /// for a second one after it: both resolve, neither with the actor
     inflight_join: bool,
+    /// A's only timers are delayed_exec futures that take a while themselves (zero delay)
+    long_exec: bool,
 }
 
 struct S {
@@ -121,6 +123,12 @@ impl Scene for S {
             a_actions.push(Action::Interval { timer: 1, period: 1 });
             a_actions.push(Action::DelayedExec { timer: 2, delay: 3 });
             a_actions.push(Action::DelayedSend { timer: 3, delay: 4 });
+        }
+        if p.long_exec {
+            // a zero-delay delayed_exec whose future is under way when A fails (4 ticks of its
+            // own), and one that is under way for longer than the scene lasts
+            a_actions.push(Action::LongExec { timer: 4, delay: 0, work: 4 });
+            a_actions.push(Action::LongExec { timer: 5, delay: 0, work: 40 });
         }
         if p.broker {
             a_actions.push(Action::Subscribe { topic: 1 });
@@ -382,7 +390,7 @@ impl Scene for S {
             }
         }
         // --- its timers stop firing; none is leaked
-        if self.parts.timers {
+        if self.parts.timers || self.parts.long_exec {
             crate::check::oblige("timers-stop");
             for e in &an.enters {
                 if e.a == 0 && matches!(e.cb, Cb::Tick { .. } | Cb::Exec { .. }) && e.idx > tidx {
@@ -504,6 +512,7 @@ fn base_cases(tier: Tier) -> Vec<Case> {
         ("bystander", Parts { bystander: true, ..Parts::default() }),
         ("children", Parts { children: true, ..Parts::default() }),
         ("timers", Parts { timers: true, ..Parts::default() }),
+        ("a delayed_exec under way", Parts { long_exec: true, ..Parts::default() }),
         ("registry", Parts { registry: true, ..Parts::default() }),
         ("timers+children", Parts { timers: true, children: true, ..Parts::default() }),
         ("bystander+registry", Parts { bystander: true, registry: true, ..Parts::default() }),
@@ -512,7 +521,7 @@ fn base_cases(tier: Tier) -> Vec<Case> {
         ("timers, the start of a restart fails", Parts { timers: true, on_restart: true, ..Parts::default() }),
         ("children+later-ops, the start of a restart fails", Parts { children: true, late_ops: true, on_restart: true, ..Parts::default() }),
     ];
-    let full = Parts { bystander: true, children: true, timers: true, registry: true, awaiters: true, late_ops: true, broker: false, on_restart: false, respawn_race: false, inflight_join: false };
+    let full = Parts { bystander: true, children: true, timers: true, registry: true, awaiters: true, late_ops: true, broker: false, on_restart: false, respawn_race: false, inflight_join: false, long_exec: false };
     let mbs: &[Mailbox] = if tier == Tier::Quick { &[Mailbox::U] } else { &[Mailbox::U, Mailbox::B(1)] };
     for cause in causes(tier) {
         for &mb in mbs {
@@ -538,7 +547,7 @@ fn base_cases(tier: Tier) -> Vec<Case> {
             }
             // pairs of faults (thorough): the behavioural fault plus a cancellation of A before its j-th poll
             if tier == Tier::Thorough && !matches!(cause, Cause::Cancel(_)) {
-                for (name, parts) in &subs[..6] {
+                for (name, parts) in &subs[..7] {
                     let a_index = if parts.children { 2 } else { 0 };
                     for j in [2u32, 3, 4, 6] {
                         v.push(Case {
